@@ -272,7 +272,23 @@ def rewrite_slice_closures(body, unit, log):
     return body
 
 
+def rewrite_closure0(body, unit, log):
+    """R19 (only for units that declare `//@ closure0 <ReturnType>`): a zero-argument closure `|| EXPR` passed as the last
+    argument of a call (EXPR free of parentheses, braces and semicolons: a place expression, possibly with `&` or `*`) is
+    annotated with its return type and with its own body as its Verus-checked postcondition:
+        `|| EXPR)`  ->  `|| -> (o: T) ensures o == (EXPR) { EXPR })`"""
+    ty = unit['closure0']
+    pat = re.compile(r'\|\|\s*([^(){};|]+?)\s*\)')
+    cnt = len(pat.findall(body))
+    if cnt:
+        body = pat.sub(lambda m: f'|| -> (o: {ty}) ensures o == ({m.group(1)}) {{ {m.group(1)} }})', body)
+        log.append(f"R19 x{cnt} in {unit['id']} (zero-argument closure annotated with its own body as postcondition)")
+    return body
+
+
 def rewrite_body(body, unit, log):
+    if unit.get('closure0'):
+        body = rewrite_closure0(body, unit, log)
     if unit.get('closures'):
         body = rewrite_slice_closures(body, unit, log)
     body = rewrite_require_macros(body, unit, log)
@@ -393,6 +409,8 @@ def _parse_lines(lines, path, out):  # list of ('text', str) | ('prelude', width
                     u['cut_after'] = (a, b)
                 elif key == 'closures':
                     u['closures'] = val.split()
+                elif key == 'closure0':
+                    u['closure0'] = val.strip()
                 elif key == 'noreplay' or key == 'replay':
                     u[key] = val
                 else:
